@@ -324,9 +324,36 @@ class ExecMixin:
                                             f"{sorted(kwargs)[0]!r}")
         env.vars.update(bound)
 
+    KNOWN_DECORATORS = {"property", "abstractmethod", "staticmethod", "classmethod", "overload", "override",
+                        "final", "lru_cache", "cache", "cached_property", "wraps"}
+
+    def decorator_names(self, fi: FuncInfo) -> set:
+        out = set()
+        for d in fi.node.decorator_list:
+            e = d.func if isinstance(d, ast.Call) else d
+            out.add(e.id if isinstance(e, ast.Name) else (e.attr if isinstance(e, ast.Attribute) else "?"))
+        return out
+
     def call_function(self, fi: FuncInfo, args, kwargs):
         if len(self.stack) > 400:
             self.raise_builtin("RecursionError", "maximum recursion depth exceeded")
+        if fi.node.decorator_list:
+            decos = self.decorator_names(fi)
+            unknown = decos - self.KNOWN_DECORATORS
+            if unknown:
+                raise Unsupported(f"decorator @{sorted(unknown)[0]} on {fi.qualname}")
+            if decos & {"lru_cache", "cache", "cached_property"}:
+                key = (fi.qualname, tuple(self.hash_key(a) for a in args),
+                       tuple(sorted((k, self.hash_key(v)) for k, v in kwargs.items())))
+                memo = self.__dict__.setdefault("_memo_decorated", {})
+                if key in memo:
+                    return memo[key]
+                r = self._call_function(fi, args, kwargs)
+                memo[key] = r
+                return r
+        return self._call_function(fi, args, kwargs)
+
+    def _call_function(self, fi: FuncInfo, args, kwargs):
         fr = Frame(fi, fi.module, fi.cls)
         env = Env()
         if self.call_log is not None:
@@ -335,6 +362,15 @@ class ExecMixin:
         try:
             fr.lineno = fi.node.lineno
             self.bind(fi.node.args, args, kwargs, env, Env(), fi.qualname)
+            if self.is_generator(fi.node):
+                # generator functions are run eagerly: the yielded values are collected in a list
+                # (laziness is decided structurally where it matters, cf. C02.eager)
+                env.vars["__yielded__"] = []
+                try:
+                    self.exec_block(fi.node.body, env)
+                except _Return:
+                    pass
+                return env.vars["__yielded__"]
             try:
                 self.exec_block(fi.node.body, env)
             except _Return as r:
@@ -342,6 +378,24 @@ class ExecMixin:
             return None
         finally:
             self.stack.pop()
+
+    _gen_cache = {}
+
+    def is_generator(self, fn) -> bool:
+        k = id(fn)
+        if k not in self._gen_cache:
+            found = False
+            stack = list(fn.body)
+            while stack and not found:
+                n = stack.pop()
+                if isinstance(n, (ast.Yield, ast.YieldFrom)):
+                    found = True
+                elif isinstance(n, (ast.FunctionDef, ast.Lambda, ast.ClassDef)):
+                    continue
+                else:
+                    stack.extend(ast.iter_child_nodes(n))
+            self._gen_cache[k] = found
+        return self._gen_cache[k]
 
     def call_closure(self, c: Closure, args, kwargs):
         env = Env(c.env)
